@@ -18,7 +18,7 @@ SEPS = {"plain": ":", "sp-before": " :", "sp-after": ": ", "underscores": "_:_",
 LEADS = {"none": "", "colon": ":", "sp-colon-sp": " : "}
 SURROUND = {"none": ("", ""), "space": (" ", " "), "underscore": ("_", "_"), "lrm": (LRM, LRM), "rlm": (RLM, RLM),
             "space+lrm": (" " + LRM, LRM + " ")}
-DEFAULTNS = [0, 1, 6, 10, 14]
+DEFAULTNS = [0, 1, 6, 10, 14, 2300]  # (2300: a namespace that is 'case-sensitive' on every bundled site)
 
 
 def case_variants(name):
@@ -50,7 +50,7 @@ class C12(InputProp):
         self.nshandling = nshandling
         self.siteinfo = siteinfo
         sites = SITES_ALL[:3] if tier == "quick" else SITES_ALL
-        self.defaultns = DEFAULTNS if tier != "quick" else [0, 10]
+        self.defaultns = DEFAULTNS if tier != "quick" else [0, 10, 2300]
         cases = []
         for lang in sites:
             si = siteinfo.get_siteinfo(lang)
@@ -131,7 +131,8 @@ class C12(InputProp):
                 if ids:
                     nsid = next(iter(ids))
                     local = sib["namespaces"][str(nsid)]["*"]
-                    exp = (nsid, "X y" if cap else "x y", (local + ":" if local else "") + ("X y" if cap else "x y"))
+                    capn = (sib["namespaces"][str(nsid)].get("case") or sib["general"].get("case")) == "first-letter"
+                    exp = (nsid, "X y" if capn else "x y", (local + ":" if local else "") + ("X y" if capn else "x y"))
                 else:
                     t = title[:1].upper() + title[1:] if cap and len(title[:1].upper()) == 1 else title
                     exp = (0, t, t)
@@ -152,7 +153,8 @@ class C12(InputProp):
         h = self.handler(lang)
         si = h.siteinfo
         local = si["namespaces"][str(nsid)]["*"]
-        cap = si["general"].get("case") == "first-letter"
+        # "where the site says so": a namespace's own 'case' entry overrides the wiki-wide setting
+        cap = (si["namespaces"][str(nsid)].get("case") or si["general"].get("case")) == "first-letter"
         viol = {}
         keys = set()
         n = 0
@@ -193,7 +195,9 @@ class C12(InputProp):
                                             continue
                                         if exp is None:
                                             dl = si["namespaces"][str(d)]["*"]
-                                            exp = (d, ref_partial, (dl + ":" if dl else "") + ref_partial)
+                                            capd = (si["namespaces"][str(d)].get("case") or si["general"].get("case")) == "first-letter"
+                                            pd = (tail[:1].upper() + tail[1:]) if capd and len(tail[:1].upper()) == 1 else tail
+                                            exp = (d, pd, (dl + ":" if dl else "") + pd)
                                         if got != exp:
                                             feat = "sur=%s,lead=%s,sep=%s,case=%s,rem=%s" % (surk, leadk, sepk, cvk, rsk)
                                             kind = "ns" if got[0] != exp[0] else ("partial" if got[1] != exp[1] else "full")
